@@ -267,6 +267,9 @@ func (e *mvccEngine) backupOp(toks []string) string {
 		}
 		cfg, a := e.newConfig()
 		db := nitro.NewWithConfig(cfg)
+		if e.rr > 0 {
+			db.VerifSetRefreshRate(e.rr)
+		}
 		// `pre=1`: the writers (and with them the collection and free workers) of the new instance are created
 		// BEFORE the restore replaces its store
 		var pre []*nitro.Writer
